@@ -1051,6 +1051,11 @@ class LessParser(object):
             error_msg = "E: %s line: %d, Syntax Error, token: `%s`, `%s`" % \
                       (self.target, t.lineno, t.type, t.value)
             self.register.register(error_msg)
+        elif self.lex.last is not None:
+            # the input ended inside a block, a declaration or a string
+            error_msg = "E: %s line: %d, Syntax Error, unexpected end of input" % \
+                      (self.target, self.lex.lexer.lineno)
+            self.register.register(error_msg)
         while True:
             t = self.lex.token()
             if not t or t.value == '}':
